@@ -118,6 +118,92 @@ class FormulaEdit(Harness):
             if (m if m[0] == 'ok' else (m[0], None)) != nn: mism.append('formula_edit%r: mir %r native %r' % (c, m, n))
         return len(cs), mism
 
+DN = 'structs::defined_name::DefinedName::'
+QUALS = [('Data!', 'Data'), ('Other!', 'Other'), ("'My Sheet'!", 'My Sheet')]
+class DefinedNameEdit(Harness):
+    name = 'defined_name.insert_remove'; property_id = 'C08'
+    entry = [DN + 'set_address', DN + 'get_address', '<DefinedName as AdjustmentCoordinateWithSheet>::adjustment_insert_coordinate_with_sheet', '::adjustment_remove_coordinate_with_sheet', '::is_remove_coordinate_with_sheet']
+    doc = 'a defined name with two areas (a cell and a range) on symbolic sheets under one insert/remove on a symbolic sheet: areas on the edited sheet follow their cells, areas wholly deleted are dropped, other areas are unchanged'
+    def __init__(self, tier):
+        self.dom = ([2, 12], [2, 5]) if tier == 'quick' else ([1, 30], [1, 12])
+        self.bounds = {'areas': 2, 'columns': self.dom[0], 'rows': self.dom[1], 'sheets': [q[1] for q in QUALS], 'locks': 'slot 0: all four, slot 1: none/both, slot 2 relative'}
+    def build(self, ctx):
+        q1 = ctx.sym_int('q1', 0, len(QUALS) - 1); q1 = next(i for i in range(len(QUALS)) if ctx.branch(q1 == i))
+        q2 = ctx.sym_int('q2', 0, len(QUALS) - 1); q2 = next(i for i in range(len(QUALS)) if ctx.branch(q2 == i))
+        sk = fskel.Skeleton('dn', [QUALS[q1][0], Slot(0, 'cell', QUALS[q1][1]), ',', QUALS[q2][0], Slot(1, 'cell', QUALS[q2][1]), ':', Slot(2, 'cell', QUALS[q2][1])])
+        return sk, q1, q2
+    def run(self, it, ctx, res):
+        sk, q1, q2 = self.build(ctx)
+        op = 'insert' if ctx.branch(ctx.sym_bool('op_insert')) else 'remove'
+        axis = 'row' if ctx.branch(ctx.sym_bool('axis_row')) else 'col'
+        dom = self.dom[1] if axis == 'row' else self.dom[0]
+        es = ctx.sym_int('edited_sheet', 0, len(QUALS) - 1)
+        edited = QUALS[next(i for i in range(len(QUALS)) if ctx.branch(es == i))][1]
+        p = ctx.sym_int('p', 1, dom[1] + 1); n = ctx.sym_int('n', 1, dom[1] + 1)
+        f = fskel.Filled(ctx, sk, self.dom[0], self.dom[1])
+        ctx.assume(z3.And(f.vals[1][0] <= f.vals[2][0], f.vals[1][1] <= f.vals[2][1]))
+        text = f.text(ctx)
+        newvals, dead, partial = edit_model(ctx, f, edited, '', op, axis, p, n)
+        info = {'op': op, 'axis': axis, 'edited': edited, 'areas_deleted': len(dead)}
+        args = [iref(p if axis == 'col' else 0), iref(n if axis == 'col' else 0), iref(p if axis == 'row' else 0), iref(n if axis == 'row' else 0)]
+        try:
+            dn = Box_(it.call('<structs::defined_name::DefinedName as std::default::Default>::default', []))
+            it.call(DN + 'set_address::<&str>', [Ref(dn), sref(SStr(text))])
+            gone = False
+            if op == 'remove':
+                gone = it.call('<structs::defined_name::DefinedName as %s>::is_remove_coordinate_with_sheet' % TS, [Ref(dn), sref(edited)] + args)
+                if is_sym(gone): gone = ctx.branch(gone)
+            if not gone:
+                it.call('<structs::defined_name::DefinedName as %s>::adjustment_%s_coordinate_with_sheet' % (TS, op), [Ref(dn), sref(edited)] + args)
+            out = it.call(DN + 'get_address', [Ref(dn)])
+        except Panic as e:
+            self.fail(ctx, res, 'no-panic', str(e), info=info); return
+        toks = f.tokens()
+        all_dead = len(dead) == len(toks)
+        self.oblige(ctx, res, 'name-dropped-iff-all-areas-deleted', gone == all_dead, info=info)
+        if gone or all_dead: return
+        # the writer may quote a sheet name that does not need it ('Data'!A1 designates the same cell as Data!A1)
+        variants = [[]]
+        for ti, t in enumerate(toks):
+            if id(t) in dead: continue
+            q = QUALS[q1 if ti == 0 else q2][0]
+            qs = [q] if q.startswith("'") else [q, "'" + q[:-1] + "'!"]
+            area = []
+            for k, sl in enumerate(t):
+                if k: area.append(58)
+                c, r, lc, lr = newvals[sl.idx]
+                area += sym_coord(ctx, c, r, lc, lr, 'e%d' % sl.idx)
+            variants = [v + ([44] if v else []) + [ord(ch) for ch in qq] + area for v in variants for qq in qs]
+        self.oblige(ctx, res, 'areas-follow-targets', any_eq(out.chars, variants), info=info)
+    def case_of(self, v):
+        m = v['model']
+        sk = fskel.Skeleton('dn', [QUALS[m['q1']][0], Slot(0), ',', QUALS[m['q2']][0], Slot(1), ':', Slot(2)])
+        c = {'address': fskel.concrete_text(sk, fskel.model_vals(sk, m)), 'op': 'insert' if m['op_insert'] else 'remove', 'axis': 'row' if m['axis_row'] else 'col', 'edited': QUALS[m['edited_sheet']][1], 'p': m['p'], 'n': m['n']}
+        c['show'] = dict(c); return c
+    def confirm(self, case, profile):
+        r = native.run_cases([['defined_name_edit', case['address'], case['edited'], case['op'], case['axis'], case['p'], case['n']]], profile)[0]
+        exp = []
+        for area in case['address'].split(','):
+            e = ref_edit(area, '', case['edited'], case['op'], case['axis'], case['p'], case['n'])[0]
+            if '#REF!' not in e: exp.append(e)
+        exp = ','.join(exp) if exp else '<dropped>'
+        got = native.unhx(r[1][0]) if r[0] == 'ok' else None
+        if got is not None: got = re.sub(r"'([A-Za-z0-9]+)'!", r'\1!', got)        # unnecessary quotes do not change the target
+        return (r[0] != 'ok' or got != exp), 'defined name %r, %s %ss p=%d n=%d on %r -> %s %r expected %r' % (case['address'], case['op'], case['axis'], case['p'], case['n'], case['edited'], r[0], got if r[0] == 'ok' else r[1], exp)
+    def validate(self, it, seed):
+        cs = [("Data!$B$2,'My Sheet'!$C$3:$D$4", 'Data'), ('Other!B2,Other!C3:D4', 'Other')]
+        nat = native.run_cases([['defined_name_edit', a, e, 'insert', 'row', 2, 2] for a, e in cs]); mism = []
+        for (a, e), n in zip(cs, nat):
+            def fn():
+                dn = Box_(it.call('<structs::defined_name::DefinedName as std::default::Default>::default', []))
+                it.call(DN + 'set_address::<&str>', [Ref(dn), sref(a)])
+                it.call('<structs::defined_name::DefinedName as %s>::adjustment_insert_coordinate_with_sheet' % TS, [Ref(dn), sref(e), iref(0), iref(0), iref(2), iref(2)])
+                return pstr(it.call(DN + 'get_address', [Ref(dn)]))
+            m = concrete(it, fn)
+            nn = ('ok', native.unhx(n[1][0])) if n[0] == 'ok' else (n[0], None)
+            if (m if m[0] == 'ok' else (m[0], None)) != nn: mism.append('defined_name_edit(%r): mir %r native %r' % (a, m, n))
+        return len(cs), mism
+
 def unquote(q):
     q = q[:-1]
     if q.startswith("'"): q = q[1:-1].replace("''", "'")
@@ -158,4 +244,4 @@ def ref_edit(text, own, edited, op, axis, p, n):
     return outs
 
 def harnesses(tier):
-    return [FormulaEdit(tier)]
+    return [FormulaEdit(tier), DefinedNameEdit(tier)]
